@@ -3,7 +3,7 @@ from props.common import *   # noqa
 
 MINE = {"referenced-object-removed", "store-state:object-bytes-changed", "model:obj",
         # the claim over histories is inductive and rests on the bookkeeping invariant being closed
-        "bookkeeping-not-exact"}
+        "bookkeeping-not-exact", "store-state:unterminated-line", "store-state:dup-line", "store-state:foreign-line"}
 
 
 def main(tier, replay_payload=None):
